@@ -57,8 +57,9 @@ EST_FORMS = {
 
 
 class Server:
-    def __init__(self, case: Dict[str, Any]):
+    def __init__(self, case: Dict[str, Any], base: str = None):
         self.case = case
+        self.base = base or BASE
         self.est = case["est"]
         self.modes = list(case.get("requests", []))
         self.stream: Optional[TimedByteStream] = None
@@ -76,10 +77,10 @@ class Server:
             return None
         _, data = EST_FORMS[k]
         if data.startswith("/"):
-            return BASE + data
+            return self.base + data
         if data.startswith("http"):
             return data
-        return f"{BASE}/messages/?{data}"
+        return f"{self.base}/messages/?{data}"
 
     async def handle(self, request: httpx.Request, rec):
         loop = asyncio.get_running_loop()
@@ -144,7 +145,7 @@ class Server:
         if mode is None:
             return httpx.Response(202)
         mode["_used"] = True
-        resp = {"jsonrpc": "2.0", "id": rid, "result": {"echo": body.get("method"), "text": TEXT}}
+        resp = {"jsonrpc": "2.0", "id": rid, "result": {"echo": body.get("method"), "text": TEXT, "server": self.base}}
         d = mode.get("delay", 0.1)
         m = mode["mode"]
         if m.endswith("_error"):
@@ -217,15 +218,24 @@ def gen_cases(ctx):
                 if mode not in ("202_then_event", "event_then_202", "202_then_event_error", "event_then_202_error") and d != 0.1:
                     continue
                 yield {"est": {"kind": "path"}, "requests": [{"id": rid, "mode": mode, "delay": d}], "exit": "normal"}
+    # --- a second SSE connection (other server, same ids) alive in the same process ------
+    for mode in REQUEST_MODES:
+        yield {"est": {"kind": "path"}, "requests": [{"id": 7, "mode": mode, "delay": 0.1}], "exit": "normal", "twin": True}
+    for k in ("query", "404", "slow"):
+        if k in EST_FORMS or k in ("404",):
+            yield {"est": {"kind": k}, "requests": [{"id": "t", "mode": "202_then_event"}], "exit": "normal", "twin": True}
     # --- sequences of modes (sender survives) -------------------------------------
     for m1 in REQUEST_MODES:
         for m2 in ("200_body", "202_then_event"):
             yield {"est": {"kind": "path"}, "requests": [{"id": "a", "mode": m1}, {"id": "b", "mode": m2}], "exit": "normal"}
-    for _ in range(60 if ctx.tier == "quick" else 1500):
+    for j in range(60 if ctx.tier == "quick" else 1500):
         L = rng.randint(2, 4)
-        yield {"est": {"kind": rng.choice(list(EST_FORMS))},
-               "requests": [{"id": f"s{i}" if rng.random() < 0.5 else i + 10, "mode": rng.choice(REQUEST_MODES),
-                             "delay": rng.choice([0.0, 0.05, 0.3])} for i in range(L)], "exit": "normal"}
+        c = {"est": {"kind": rng.choice(list(EST_FORMS))},
+             "requests": [{"id": f"s{i}" if rng.random() < 0.5 else i + 10, "mode": rng.choice(REQUEST_MODES),
+                           "delay": rng.choice([0.0, 0.05, 0.3])} for i in range(L)], "exit": "normal"}
+        if j % 3 == 0:
+            c["twin"] = True
+        yield c
     # --- server-initiated messages x chunkings --------------------------------------
     sm = [{"jsonrpc": "2.0", "method": "notifications/message", "params": {"level": "info", "data": TEXT + str(i)}}
           for i in range(3)] + [{"jsonrpc": "2.0", "id": "srv-9", "method": "roots/list"}]
@@ -251,13 +261,23 @@ def gen_cases(ctx):
         yield dict(base, exit="cancel_sweep")
 
 
+TWIN_BASE = "http://twin.test"
+
+
+def twin_case(case: Dict[str, Any]) -> Dict[str, Any]:
+    """A healthy second SSE connection in the same process, using the same request ids as the first."""
+    ids = [r["id"] for r in case.get("requests", [])] or [1]
+    return {"est": {"kind": "path"}, "exit": "normal",
+            "requests": [{"id": i, "mode": ("202_then_event", "200_body")[k % 2], "delay": 0.25} for k, i in enumerate(ids)]}
+
+
 async def scenario(case: Dict[str, Any], srv: Server, obs: Dict[str, Any]):
     from chuk_mcp.transports.sse.sse_client import sse_client
     from chuk_mcp.transports.sse.parameters import SSEParameters
     from chuk_mcp.protocol.messages.json_rpc_message import create_request
 
     loop = asyncio.get_running_loop()
-    params = SSEParameters(url=BASE, timeout=TIMEOUT)
+    params = SSEParameters(url=srv.base, timeout=TIMEOUT)
     obs["t_enter0"] = loop.time()
     got: List[Any] = []
     obs["got"] = got
@@ -313,11 +333,18 @@ def run_once(case: Dict[str, Any], cancel_at: Optional[int] = None, cancel_mode:
     srv = Server(case)
     obs: Dict[str, Any] = {}
     holder: Dict[str, Any] = {}
+    twin = Server(twin_case(case), TWIN_BASE) if case.get("twin") else None
+    twin_obs: Dict[str, Any] = {}
+
+    async def route(request: httpx.Request, rec):
+        if twin is not None and request.url.host == "twin.test":
+            return await twin.handle(request, rec)
+        return await srv.handle(request, rec)
 
     async def main():
         with warnings.catch_warnings(record=True) as wlist:
             warnings.simplefilter("always")
-            with ScriptedHTTP(srv.handle) as http:
+            with ScriptedHTTP(route) as http:
                 async def scoped():
                     import anyio
                     with anyio.CancelScope() as scope:
@@ -325,6 +352,7 @@ def run_once(case: Dict[str, Any], cancel_at: Optional[int] = None, cancel_mode:
                         await scenario(case, srv, obs)
                     if scope.cancelled_caught:
                         obs["cancelled"] = True
+                tt = asyncio.create_task(scenario(twin.case, twin, twin_obs), name="vf-twin-scenario") if twin else None
                 t = asyncio.create_task(scoped() if cancel_mode == "scope" else scenario(case, srv, obs), name="vf-scenario")
                 holder["task"] = t
                 try:
@@ -334,6 +362,15 @@ def run_once(case: Dict[str, Any], cancel_at: Optional[int] = None, cancel_mode:
                         raise
                 except BaseException as e:  # noqa
                     obs["scenario_error"] = e
+                if tt is not None:
+                    try:
+                        await tt
+                    except BaseException as e:  # noqa
+                        twin_obs["scenario_error"] = e
+                    twin.stop()
+                    obs["twin"] = twin_obs
+                    obs["twin_posts"] = twin.posts
+                    obs["twin_expected_post_url"] = twin.expected_post_url()
                 srv.stop()
                 # settle, then look for leftovers
                 await asyncio.sleep(0.05)
@@ -465,8 +502,29 @@ def exec_case(ctx, case: Dict[str, Any]) -> None:
                 ctx.violation("entry_failed_despite_announcement", f"server announced the endpoint but entry raised {err!r}", case)
             if t_err > TIMEOUT + 0.01:
                 ctx.violation("entry_raise_too_late", f"entry raised at {t_err} > timeout {TIMEOUT}", case)
+    if case.get("twin"):
+        tobs = obs.get("twin") or {}
+        ctx.count("twin_connections")
+        tmsgs = [norm_any(m) for _, m in tobs.get("got", [])]
+        problems = []
+        if "entered_at" not in tobs:
+            problems.append(f"never entered: {tobs.get('entry_error') or tobs.get('scenario_error')!r}")
+        for req in twin_case(case)["requests"]:
+            mine = [g for g in tmsgs if g[0] == "response" and g[1] == tagged(req["id"])]
+            if len(mine) != 1:
+                problems.append(f"request {req['id']!r}: {len(mine)} responses")
+            tp = [p for p in obs.get("twin_posts", []) if p["body"].get("id") == req["id"]]
+            if len(tp) != 1 or tp[0]["url"] != obs.get("twin_expected_post_url"):
+                problems.append(f"request {req['id']!r}: POSTs {[p['url'] for p in tp]}")
+        for label, stream_msgs, base in (("first", obs.get("got", []), BASE), ("second", tobs.get("got", []), TWIN_BASE)):
+            for _, m in stream_msgs:
+                res = getattr(m, "result", None)
+                if isinstance(res, dict) and res.get("server") not in (None, base):
+                    problems.append(f"{label} connection read a response produced by {res.get('server')}")
+        if problems:
+            ctx.violation("connections_interfere", f"second healthy SSE connection in the same process: {problems[:4]}", case)
     check_clean(ctx, case, obs)
-    ctx.record(case, shape=shape, cls=f"est:{k}:{case['exit']}" if not case.get("server_msgs") else "chunking",
+    ctx.record(case, shape=shape, cls=(f"est:{k}:{case['exit']}" + (":twin" if case.get("twin") else "")) if not case.get("server_msgs") else "chunking",
                sample={"case": {kk: vv for kk, vv in case.items() if kk != "server_msgs"}, "observed": shape,
                        "announced_at": obs.get("announced_at"), "posts": len(obs["posts"])})
 
